@@ -401,7 +401,9 @@ class Body:
     # ---- CFG (normal edges only; cleanup blocks excluded)
     def succ(self, b):
         if self._succ is None:
-            self._succ = {blk.i: [s for s in blk.term.succs() if not self.blocks[s].cleanup] for blk in self.blocks if not blk.cleanup}
+            # edges into `unreachable` blocks (exhaustive-match fallthroughs) are never taken
+            dead = {blk.i for blk in self.blocks if blk.term.k == "unreachable" and not blk.stmts}
+            self._succ = {blk.i: [s for s in blk.term.succs() if not self.blocks[s].cleanup and s not in dead] for blk in self.blocks if not blk.cleanup}
         return self._succ.get(b, [])
 
     def pred(self, b):
@@ -544,6 +546,21 @@ class Body:
                     work.append(a)
         return out
 
+    def fn_values(self):
+        """function items used as values in this body (reified fn pointers, fn items passed as arguments)"""
+        out = []
+        for blk in self.normal_blocks():
+            ops = []
+            for s in blk.stmts:
+                if s.rv is not None:
+                    ops.extend(s.rv.ops)
+            if blk.term.k == "call":
+                ops.extend(blk.term.args)
+            for o in ops:
+                if o.is_const() and o.c and "fn" in o.c:
+                    out.append(Callee(o.c))
+        return out
+
     # ---- iteration helpers
     def calls(self):
         for blk in self.normal_blocks():
@@ -668,6 +685,11 @@ class Program:
                     for o in ops:
                         if o.is_const() and o.c and "closure" in o.c and o.c["closure"] in self.bodies:
                             cg[p].add(o.c["closure"])
+                        # a function item used as a value (fn pointer / passed to an adaptor) may be called
+                        if o.is_const() and o.c and "fn" in o.c:
+                            tp = Callee(o.c).target_path(self)
+                            if tp:
+                                cg[p].add(tp)
             self._cg = cg
         return self._cg
 
